@@ -659,7 +659,20 @@ class Data(Field):
         value = getattr(pkt, self.field_name)
         is_literal = not isinstance(value, Any)
 
-        if is_literal:
+        if self.until_marker is not None and not self.consume_delimiter:
+            # The delimiter is only looked at, not consumed: it is part of
+            # whatever follows this field, which describes it by itself.
+            # Do not demand it twice.
+            if is_literal:
+                fragments.append(value)
+            else:
+                fragments.append(
+                    value.regexp.pattern
+                    if value.regexp is not None else b".*",
+                    is_literal=False
+                )
+
+        elif is_literal:
             self.pack(pkt, fragments, **k)
 
         else:
